@@ -798,3 +798,289 @@ def fs_writes(ctx):
     out.append(dict(name="custom:c08-fs-writes/scan", kind="frame", verdict="discharged", carries=False, solver="ast-scan", ms=0.0,
                     note=f"{len(reach)} functions reachable from the lint entry points scanned; file-system effects found: {n_eff}"))
     return out
+
+
+# =================================================================== writes through SHARED objects reachable from `context`
+# The orchestrator hands every rule the SAME configuration objects (context.metadata = {**config, ...}: a shallow copy,
+# the per-linter section dicts are shared by all files of the run and by all later runs of a long-lived Linter). A
+# function that mutates such an object makes the verdict of later files depend on order / history (C08, C10, C07).
+# Taint levels: 0 clean; E = fresh container whose ELEMENTS are shared (dict(x), list(x), x.copy(), {**x}); T = shared
+# object; CTX = the per-file context object (its .metadata is T, its other attributes are immutable values).
+_CLEAN, _E, _T, _CTX = 0, 1, 2, 3
+_SCALAR_FUNCS = {"str", "int", "len", "bool", "isinstance", "float", "repr", "type", "hasattr", "min", "max", "sum", "any", "all",
+                 "Path", "id", "hash", "abs", "round", "callable", "issubclass", "range", "enumerate", "zip", "print", "format"}
+_SHALLOW_COPIES = {"dict", "list", "set", "tuple", "sorted", "frozenset", "reversed", "OrderedDict", "deque"}
+_READ_SHARED = {"get", "pop", "setdefault", "popitem", "__getitem__"}
+
+
+class SharedWrites:
+    def __init__(self, idx: Index):
+        self.idx = idx
+        self.funcs = {}          # (rel, qual) -> (FunctionDef, owner class name or None)
+        self.by_name = {}        # bare name -> [(rel, qual)]
+        for (rel, nm), fn in idx.funcs.items():
+            self.funcs[(rel, nm)] = (fn, None)
+            self.by_name.setdefault(nm, []).append((rel, nm))
+        for ck, cd in idx.classes.items():
+            for st in cd.body:
+                if isinstance(st, (ast.FunctionDef, ast.AsyncFunctionDef)):
+                    key = (ck[0], f"{ck[1]}.{st.name}")
+                    self.funcs[key] = (st, ck[1])
+                    self.by_name.setdefault(st.name, []).append(key)
+        self.param_taint = {}    # (key, param) -> level
+        self.ret_taint = {}      # key -> level
+        self.field_taint = {}    # (class name, attr) -> level
+        self.sinks = {}          # key -> [(lineno, text)]
+        self.changed = False
+
+    @staticmethod
+    def _join(a, b):
+        if a == b:
+            return a
+        if _CTX in (a, b):
+            return _CTX if _CLEAN in (a, b) else _T
+        return max(a, b)
+
+    def _set(self, table, k, v):
+        old = table.get(k, _CLEAN)
+        new = self._join(old, v)
+        if new != old:
+            table[k] = new
+            self.changed = True
+
+    def _params(self, key):
+        fn, owner = self.funcs[key]
+        names = [a.arg for a in fn.args.posonlyargs + fn.args.args]
+        is_static = any(isinstance(d, ast.Name) and d.id == "staticmethod" for d in fn.decorator_list)
+        if owner is not None and not is_static and names:
+            names = names[1:]  # self / cls
+        return names, [a.arg for a in fn.args.kwonlyargs]
+
+    def _callees(self, rel, owner, call):
+        f = call.func
+        out = []
+        if isinstance(f, ast.Name):
+            ck = self.idx.resolve_class(rel, f.id)
+            fk = self.idx.resolve_func(rel, f.id)
+            if ck:
+                for mn in ("__init__", "__post_init__"):
+                    r = self.idx.method(ck, mn)
+                    if r:
+                        out.append((r[0][0], f"{r[0][1]}.{mn}"))
+            elif fk:
+                out.append(fk)
+            else:
+                out += [k for k in self.by_name.get(f.id, []) if "." not in k[1]]
+        elif isinstance(f, ast.Attribute):
+            out += [k for k in self.by_name.get(f.attr, []) if "." in k[1]]
+            if isinstance(f.value, ast.Name):
+                out += [k for k in self.by_name.get(f.attr, []) if "." not in k[1]
+                        and (self.idx.imports.get(rel, {}).get(f.value.id, (None,))[0] or "").startswith(k[0][:-3])]
+        return [k for k in out if k in self.funcs]
+
+    def _elem(self, v):
+        return _T if v in (_T, _E) else _CLEAN
+
+    def eval(self, e, env, key):
+        rel, owner = key[0], self.funcs[key][1]
+        if e is None or isinstance(e, ast.Constant):
+            return _CLEAN
+        if isinstance(e, ast.Name):
+            return env.get(e.id, _CLEAN)
+        if isinstance(e, ast.Attribute):
+            if isinstance(e.value, ast.Name) and e.value.id == "self" and owner is not None:
+                return self.field_taint.get((owner, e.attr), _CLEAN)
+            v = self.eval(e.value, env, key)
+            if v == _CTX:
+                return _T if e.attr in ("metadata", "config") else _CLEAN
+            return _T if v in (_T, _E) else _CLEAN
+        if isinstance(e, ast.Subscript):
+            v = self.eval(e.value, env, key)
+            return _T if v in (_T, _E) else _CLEAN
+        if isinstance(e, (ast.BoolOp,)):
+            r = _CLEAN
+            for x in e.values:
+                r = self._join(r, self.eval(x, env, key))
+            return r
+        if isinstance(e, ast.IfExp):
+            return self._join(self.eval(e.body, env, key), self.eval(e.orelse, env, key))
+        if isinstance(e, ast.NamedExpr):
+            v = self.eval(e.value, env, key)
+            env[e.target.id] = self._join(env.get(e.target.id, _CLEAN), v)
+            return v
+        if isinstance(e, (ast.List, ast.Tuple, ast.Set)):
+            return _E if any(self.eval(x, env, key) in (_T, _E, _CTX) for x in e.elts) else _CLEAN
+        if isinstance(e, ast.Dict):
+            vs = [self.eval(x, env, key) for x in e.values if x is not None]
+            return _E if any(v in (_T, _E, _CTX) for v in vs) else _CLEAN
+        if isinstance(e, (ast.ListComp, ast.SetComp, ast.GeneratorExp, ast.DictComp)):
+            sub = dict(env)
+            for g in e.generators:
+                it = self.eval(g.iter, sub, key)
+                for n in ast.walk(g.target):
+                    if isinstance(n, ast.Name):
+                        sub[n.id] = self._elem(it)
+            elt = e.value if isinstance(e, ast.DictComp) else e.elt
+            return _E if self.eval(elt, sub, key) in (_T, _E) else _CLEAN
+        if isinstance(e, ast.Starred):
+            return self.eval(e.value, env, key)
+        if isinstance(e, ast.Call):
+            return self.eval_call(e, env, key)
+        return _CLEAN
+
+    def eval_call(self, c, env, key):
+        rel, owner = key[0], self.funcs[key][1]
+        f = c.func
+        args = [self.eval(a, env, key) for a in c.args]
+        kws = {k.arg: self.eval(k.value, env, key) for k in c.keywords}
+        any_arg = [a for a in args + list(kws.values())]
+        if isinstance(f, ast.Name):
+            if f.id == "getattr" and c.args:
+                base = args[0]
+                name = c.args[1].value if len(c.args) > 1 and isinstance(c.args[1], ast.Constant) else None
+                if base == _CTX:
+                    return _T if name in ("metadata", "config", None) else _CLEAN
+                return _T if base in (_T, _E) else _CLEAN
+            if f.id in ("deepcopy",) or f.id in _SCALAR_FUNCS:
+                return _CLEAN
+            if f.id in _SHALLOW_COPIES:
+                return _E if any(a in (_T, _E) for a in any_arg) else _CLEAN
+        if isinstance(f, ast.Attribute):
+            recv = self.eval(f.value, env, key)
+            if ast.unparse(f) in ("copy.deepcopy",):
+                return _CLEAN
+            if ast.unparse(f) in ("copy.copy",):
+                return _E if any(a in (_T, _E) for a in any_arg) else _CLEAN
+            builtin = None
+            if recv in (_T, _E):
+                # container API on a shared object: these meanings hold whatever same-named src methods exist
+                if f.attr == "copy":
+                    builtin = _E
+                elif f.attr in _READ_SHARED:
+                    builtin = _T
+                elif f.attr in ("items", "values"):
+                    builtin = _E
+                elif f.attr in ("keys", "lower", "upper", "strip", "split", "startswith", "endswith", "format", "join", "replace"):
+                    builtin = _CLEAN
+            if builtin is not None and not self._callees(rel, owner, c):
+                return builtin
+        # calls into src: pass argument taints to the parameters, take the join of the callees' return taints
+        res = _CLEAN
+        if isinstance(f, ast.Attribute):
+            recv0 = self.eval(f.value, env, key)
+            if recv0 in (_T, _E):
+                res = {"copy": _E, "items": _E, "values": _E}.get(f.attr, _T if f.attr in _READ_SHARED else _CLEAN)
+        callees = self._callees(rel, owner, c)
+        for k in callees:
+            pos, kwonly = self._params(k)
+            for name, lv in zip(pos, args):
+                if lv != _CLEAN:
+                    self._set(self.param_taint, (k, name), lv)
+            for name, lv in kws.items():
+                if lv != _CLEAN and name in pos + kwonly:
+                    self._set(self.param_taint, (k, name), lv)
+            res = self._join(res, self.ret_taint.get(k, _CLEAN))
+        if isinstance(f, ast.Attribute) and not callees:
+            recv = self.eval(f.value, env, key)
+            if recv in (_T, _E) and f.attr not in MUTATORS:
+                res = self._join(res, _T)  # unknown method of a shared object: may return a part of it
+        return res if res != _CTX else _T
+
+    def analyse(self, key):
+        fn, owner = self.funcs[key]
+        pos, kwonly = self._params(key)
+        env = {p: self.param_taint.get((key, p), _CLEAN) for p in pos + kwonly}
+        sinks = []
+        for _ in range(3):  # flow-insensitive: a few passes over the body let later assignments reach earlier uses
+            for n in ast.walk(fn):
+                if isinstance(n, (ast.Assign, ast.AnnAssign, ast.AugAssign)):
+                    val = self.eval(n.value, env, key) if getattr(n, "value", None) is not None else _CLEAN
+                    tgts = n.targets if isinstance(n, ast.Assign) else [n.target]
+                    for t in tgts:
+                        if isinstance(t, ast.Name):
+                            env[t.id] = self._join(env.get(t.id, _CLEAN), val)
+                        elif isinstance(t, (ast.Tuple, ast.List)):
+                            for x in ast.walk(t):
+                                if isinstance(x, ast.Name):
+                                    env[x.id] = self._join(env.get(x.id, _CLEAN), self._elem(val) if val != _CTX else _CLEAN)
+                        elif isinstance(t, ast.Attribute) and isinstance(t.value, ast.Name) and t.value.id == "self" and owner:
+                            if val in (_T, _E):
+                                self._set(self.field_taint, (owner, t.attr), val)
+                elif isinstance(n, (ast.For, ast.AsyncFor)):
+                    it = self.eval(n.iter, env, key)
+                    for x in ast.walk(n.target):
+                        if isinstance(x, ast.Name):
+                            env[x.id] = self._join(env.get(x.id, _CLEAN), self._elem(it))
+                elif isinstance(n, ast.Return) and n.value is not None:
+                    self._set(self.ret_taint, key, self.eval(n.value, env, key))
+                elif isinstance(n, ast.Call):
+                    self.eval_call(n, env, key)
+        # sinks
+        for n in ast.walk(fn):
+            tgts = []
+            if isinstance(n, ast.Assign):
+                tgts = n.targets
+            elif isinstance(n, (ast.AugAssign, ast.AnnAssign)) and getattr(n, "value", True) is not None:
+                tgts = [n.target]
+            elif isinstance(n, ast.Delete):
+                tgts = n.targets
+            for t in tgts:
+                for s_ in ([t] if not isinstance(t, (ast.Tuple, ast.List)) else t.elts):
+                    if isinstance(s_, (ast.Subscript, ast.Attribute)):
+                        if isinstance(s_, ast.Attribute) and isinstance(s_.value, ast.Name) and s_.value.id == "self":
+                            continue  # rule / helper state: the business of c08-check-frames
+                        base = self.eval(s_.value, env, key)
+                        if base == _T or (base == _CTX and isinstance(s_, ast.Attribute)):
+                            sinks.append((n.lineno, ast.unparse(n)[:100]))
+            if isinstance(n, ast.Call) and isinstance(n.func, ast.Attribute) and n.func.attr in MUTATORS:
+                if self.eval(n.func.value, env, key) == _T:
+                    sinks.append((n.lineno, ast.unparse(n)[:100]))
+        self.sinks[key] = sorted(set(sinks))
+
+    def run(self):
+        seeds = 0
+        for ck in self.idx.classes:
+            if self.idx.is_subclass(ck, "BaseLintRule"):
+                m = self.idx.method(ck, "check")  # own or inherited (MultiLanguageLintRule.check dispatches by language)
+                if m is not None and len(m[1].args.args) >= 2:
+                    self._set(self.param_taint, ((m[0][0], f"{m[0][1]}.check"), m[1].args.args[1].arg), _CTX)
+                    seeds += 1
+        rounds = 0
+        while True:
+            rounds += 1
+            self.changed = False
+            live = {k for (k, _p) in self.param_taint} | {(rel, q) for (rel, q) in self.funcs if self.funcs[(rel, q)][1]
+                                                          and any(c == self.funcs[(rel, q)][1] for (c, _a) in self.field_taint)}
+            for k in sorted(live):
+                self.analyse(k)
+            if not self.changed or rounds > 25:
+                break
+        return seeds, rounds, len({k for (k, _p) in self.param_taint})
+
+
+@custom("c08-shared-config-frames", props=["C08", "C10", "C07", "C11"])
+def shared_config_frames(ctx):
+    """Frame obligation on the READERS of shared state: nothing reachable from a rule's check(context) writes through an
+    object that aliases context.metadata (the orchestrator's configuration sections, shared by all files of a run and by
+    later runs of the same Linter). Inter-procedural taint propagation by name resolution (over-approximate calls),
+    shallow copies tracked (dict(x) is fresh, its values are not). One obligation per function with such a write."""
+    idx = Index(ctx["repo"])
+    sw = SharedWrites(idx)
+    seeds, rounds, reached = sw.run()
+    if seeds < 15:
+        return [dict(name="custom:c08-shared-config-frames/seeds", kind="frame", verdict="unknown", carries=True,
+                     note=f"only {seeds} rule check(context) entry points found")]
+    if rounds > 25:
+        return [dict(name="custom:c08-shared-config-frames/fixpoint", kind="frame", verdict="unknown", carries=True,
+                     note="taint propagation did not reach a fixpoint in 25 rounds")]
+    out = []
+    for key, sinks in sorted(sw.sinks.items()):
+        if sinks:
+            out.append(dict(name=f"custom:c08-shared-config-frames/{key[0]}::{key[1]}", kind="frame", verdict="refuted", carries=True,
+                            witness_confirmed=False, solver="ast-taint",
+                            note=f"writes through an object that may alias the shared configuration (context.metadata): "
+                                 f"{[f'L{ln}: {tx}' for ln, tx in sinks[:4]]}"))
+    out.append(dict(name="custom:c08-shared-config-frames/scan", kind="frame", verdict="discharged", carries=False, solver="ast-taint", ms=0.0,
+                    note=f"{seeds} check(context) entry points, {reached} functions receive (parts of) the shared configuration, "
+                         f"fixpoint after {rounds} rounds; functions writing through it: {len(out)}"))
+    return out
